@@ -194,7 +194,7 @@ def _patlist(pats, name):
 
 def model_lookup(case, name):
     """-> (raw options before token expansion, info for the non-trivial rule)."""
-    opts, ndefs, negdec = {}, {}, False
+    opts, ndefs, negdec, idf_blocks = {}, {}, False, []
     for b in case["blocks"]:
         if b["kind"] == "host":
             ok, nd = _patlist([(p, neg) for p, neg, _ in b["pats"]], name)
@@ -212,6 +212,7 @@ def model_lookup(case, name):
         if not ok:
             continue
         seen = set()
+        idf_blocks.append([line[2] for line in b["lines"] if line[0].lower() == "identityfile"])
         for line in b["lines"]:
             key, value = line[0].lower(), line[2]
             seen.add(key)
@@ -224,7 +225,14 @@ def model_lookup(case, name):
         for key in seen:
             ndefs[key] = ndefs.get(key, 0) + 1
     opts.setdefault("hostname", name)
-    return opts, {"multi": any(v >= 2 for v in ndefs.values()), "neg": negdec}
+    # what the known defect "duplicates inside the first defining block are kept" would produce (bucket diagnosis only)
+    idf_blocks = [x for x in idf_blocks if x]
+    dup_first = list(idf_blocks[0]) if idf_blocks else []
+    for blk in idf_blocks[1:]:
+        for v in blk:
+            if v not in dup_first:
+                dup_first.append(v)
+    return opts, {"multi": any(v >= 2 for v in ndefs.values()), "neg": negdec, "idf_dup_first": dup_first}
 
 
 def _env(opts, name, hostname_expanded=True):
@@ -285,15 +293,7 @@ def exc_bucket(exc):
     return "%s@%s" % (type(exc).__name__, where)
 
 
-def _dedup(xs):
-    out = []
-    for x in xs:
-        if x not in out:
-            out.append(x)
-    return out
-
-
-def _check_lookup(ctx, case, text, name, got, opts):
+def _check_lookup(ctx, case, text, name, got, opts, info):
     env = _env(opts, name)
     env_raw = _env(opts, name, hostname_expanded=False)
     for key in sorted(set(opts) | set(got)):
@@ -322,11 +322,9 @@ def _check_lookup(ctx, case, text, name, got, opts):
             if env_raw["h"] != env["h"] and len(wl) == len(hl) and all(_matches(key, w, h, env_raw, name) for w, h in zip(wl, hl)):
                 bucket = "h-token-uses-unexpanded-hostname"
             elif isinstance(want, list) and len(hl) > len(wl):
-                dd = _dedup(hl)
-                if len(dd) == len(wl) and all(_matches(key, w, h, env, name) for w, h in zip(wl, dd)):
-                    bucket = "identityfile-duplicate-kept"
-                elif env_raw["h"] != env["h"] and len(dd) == len(wl) and all(_matches(key, w, h, env_raw, name) for w, h in zip(wl, dd)):
-                    bucket = "identityfile-duplicate-kept"
+                wd = info["idf_dup_first"]
+                if len(wd) == len(hl) and any(all(_matches(key, w, h, e, name) for w, h in zip(wd, hl)) for e in (env, env_raw)):
+                    bucket = "identityfile-duplicate-within-block"
         ctx.violation(
             "lookup-value",
             bucket,
@@ -372,7 +370,7 @@ def execute(ctx, case):
             ctx.violation("get_hostnames", "wrong-set", case, "got %r want %r\n%s" % (sorted(hosts), sorted(want_hosts), text))
     # lookups (all on the same object; the first name is looked up once more at the end)
     results = []
-    for name, (opts, _) in zip(case["names"] + case["names"][:1], models + models[:1]):
+    for name, (opts, info) in zip(case["names"] + case["names"][:1], models + models[:1]):
         try:
             got = conf.lookup(name)
         except Exception as e:
@@ -380,7 +378,7 @@ def execute(ctx, case):
             return
         results.append(dict(got))
         if len(results) <= len(case["names"]):
-            _check_lookup(ctx, case, text, name, dict(got), opts)
+            _check_lookup(ctx, case, text, name, dict(got), opts, info)
     if results[-1] != results[0]:
         ctx.violation("lookup-repeat", "result-changes-on-repeated-lookup", case, "first %r\nagain %r\n%s" % (results[0], results[-1], text))
 
@@ -390,7 +388,7 @@ def run(ctx):
     ctx.assume("local user, home directory and short local host name are taken from getpass/os.path/socket (as documented for %u %d %L)")
     ctx.assume("%C and %l are only checked for 'token replaced by a hash / host name', their values depend on the resolver")
     ctx.assume("%u with a configured User: both the local user (ssh_config(5)) and the configured User (paramiko docs) are accepted")
-    ctx.explore(case_st(), lambda c: execute(ctx, c), ctx.scale(3500, 40000))
+    ctx.explore(case_st(), lambda c: execute(ctx, c), ctx.scale(2500, 40000))
 
 
 def replay(ctx, case):
